@@ -81,7 +81,19 @@ func main() {
 		w.Flush()
 	case "sched":
 		f := strings.Split(os.Args[2], "|")
-		sc, _ := strconv.Atoi(f[0])
+		sc, err := strconv.Atoi(f[0])
+		if err != nil {
+			// a scenario may be given by name (replays in known_findings.txt)
+			sc = -1
+			for i := range scenarios {
+				if scenarios[i].name == f[0] {
+					sc = i
+				}
+			}
+			if sc < 0 {
+				os.Exit(2)
+			}
+		}
 		idx, _ := strconv.Atoi(f[2])
 		writeJSON(runScenario(scenarios[sc], f[1], idx))
 	case "round":
